@@ -12,9 +12,9 @@ Normalisations the oracle applies (and nothing else):
     inside or outside encoded words are content.  Two tolerances only: (1) outer white space is not significant
     (the blank after "Subject:" and white space before the line end are padding); (2) the one white-space character
     that follows the line break of a *fold* (the writers fold only at a single blank between two words, never inside
-    or next to a run of white space, so it is always exactly one) may come back literally (RFC 5322 2.2.3: only the CRLF is removed, a tab
-    continuation stays a tab) or as one blank (the conventional reading of tab-folded headers; what decode_header
-    does when it joins lines).  The line break itself must be gone;
+    or next to a run of white space, so it is always exactly one) may come back literally (RFC 5322 2.2.3: only the
+    CRLF is removed, a tab continuation stays a tab) or as one blank (the conventional reading of tab-folded
+    headers; what decode_header does when it joins lines).  The line break itself must be gone;
   * message-id: exact (the "<...>" token, no surrounding white space);
   * addresses: exact (order, case, count); display names exact after RFC 2047 / quoted-string decoding;
   * date: the returned ISO string is parsed and compared *as an instant* with the Date: header; a naive
@@ -22,8 +22,19 @@ Normalisations the oracle applies (and nothing else):
   * bodies: CRLF == LF (the line terminator is transport), trailing newlines ignored, and for the mbox carrier
     the body may carry the '>' that the harness's own mboxrd writer put before ``From `` lines;
   * attachments: filename, type and bytes exact; for 7bit/8bit (not base64/QP) text parts the line terminator
-    is transport as well.  Inline ``multipart/related`` parts may be reported as attachments or not — when
-    they are, they must be exact;
+    is transport as well.  Inline ``multipart/related`` parts and a message carried without any Content-Disposition
+    (forwarded inline) may be reported as attachments or not — when they are, they must be exact; the carried
+    message's text is never the carrier's body.  A part without filename / name parameter has no name to be exact
+    about: "", None or the readers' constant placeholder "attachment" are accepted, an invented name is not;
+  * supported attachments == the attached file on its own: the file on its own is routed by its *name* (README: "file
+    extensions (primary) ... MIME types (fallback)"), so an attachment whose declared type is a supported one but not
+    the canonical type of its extension (.csv as application/vnd.ms-excel, .docx as application/zip, .html as
+    text/plain ...) must come out as its name says; only a part without a usable extension is routed by its declared
+    type.  Consumed through both carriers (every message with nameless / otherwise-typed / encrypted / message
+    attachments, a sixth of the rest for the mailbox).  A password-protected attachment makes the iterator raise the
+    file-encrypted error (what reading the file on its own does; the iterator re-raises exactly that error): results
+    before it are compared, an iterator that ends normally is reported; any exception outside the ExtractionError
+    family is reported under its own symptom;
   * which body ``get_full_text()`` prefers is README behaviour ("body_plain when present, else body_html") and is
     checked only in that documented form.
 
@@ -34,6 +45,12 @@ with its control twin and is a KNOWN-FINDING only when the twin is exact):
                                                                            .eml returns a re-serialisation, not the bytes
   fold-at-encoded-word   Subject folded between =?..?= and plain text   -> the blank at the fold is lost (both readers)
   date-second-60         Date: hh:mm:60 (RFC 5322 leap second)          -> the whole mailbox fails with ValueError
+  nameless-attachment    attachment part without filename parameter     -> .eml returns it as "<random letters>.txt" and
+                                                                           therefore extracts it as plain text whatever its type
+The nested-rfc822 cases cycle through NESTED_VARIANTS: one to three carried messages of different sizes (also in
+decreasing size order), forwarded as attachment (with or without a file name) or inline (no Content-Disposition), in
+carriers with and without a text/plain body of their own.  For the .mbox carrier only the one known re-serialisation
+("Name:" CRLF SP value -> "Name: " CRLF SP value) is attributed to the feature; any other bytes are `bytes-foreign`.
 and two that only the rendered bytes show (G.wire_features; detected per message, a message may carry both next to
 a planned one; the control twin is the same message with Subject and Message-ID on one line each):
   plain-folded-subject             a folded Subject without any encoded-word -> .eml returns it still folded ("a\n b")
@@ -49,7 +66,9 @@ No claim is made about Outlook .msg beyond totality of the accessors on the two 
 Self-check (mutants of the repository, quick tier): header charset forced to latin-1 for koi8; address list
 split on ','; separator regex unanchored / case-insensitive / accepting '>From'; PDF attachment payload not
 base64-decoded; cc/bcc swapped; date offset dropped; body charset ignored; supported attachment fed the first
-attachment's bytes — all reported as VIOLATION.  "Separator regex without the year" is equivalent on the
+attachment's bytes; Subject white space collapsed with split/join in EmailContent (eml + mbox: subject-interior-white-
+space-altered), display names collapsed in EmailAddress, tabs turned into blanks by the mbox header decoder — all
+reported as VIOLATION.  "Separator regex without the year" is equivalent on the
 property's domain (mboxrd-escaped mailboxes contain no unescaped ``From `` line) and is, correctly, not reported.
 """
 from __future__ import annotations
@@ -69,7 +88,22 @@ FILE_KEYS = ("filename", "file_extension", "file_path", "folder_path")
 
 # Risky features (reproduced against the unchanged tree, see known_findings.d/C16.json).  They are kept out of
 # `clean` messages; each risky case carries exactly one of them and is accompanied by its control twin.
-RISKY = ("mbox-attachment", "nested-rfc822", "fold-at-encoded-word", "date-second-60", "plain-folded-subject", "message-id-on-continuation-line")
+# The nested-rfc822 cases cycle through these shapes (by case number, so every run has all of them): how many messages are
+# carried and how (Content-Disposition: attachment / none at all = forwarded inline), in which size order, and what the
+# carrier's own body is ("html": no text/plain of its own; None: whatever the generator draws).
+NESTED_VARIANTS = (
+    {"disp": ["attachment"], "order": "any", "carrier": None},
+    {"disp": ["attachment", "attachment"], "order": "decreasing", "carrier": None},
+    {"disp": ["none"], "order": "any", "carrier": "html"},
+    {"disp": ["attachment", "attachment", "attachment"], "order": "decreasing", "carrier": "plain"},
+    {"disp": ["attachment", "attachment"], "order": "any", "carrier": "html"},
+    {"disp": ["none", "attachment"], "order": "any", "carrier": "html"},
+    {"disp": ["none"], "order": "any", "carrier": "alt"},
+    {"disp": ["attachment", "none", "attachment"], "order": "decreasing", "carrier": None},
+)
+AMBIGUOUS_FOLDS = {"fold-at-encoded-word", "fold-in-white-space-run"}      # never in a clean message (G.wire_features)
+RISKY = ("mbox-attachment", "nested-rfc822", "fold-at-encoded-word", "date-second-60", "plain-folded-subject", "message-id-on-continuation-line",
+         "nameless-attachment")
 
 
 # ============================================================================================= worker side
@@ -95,8 +129,9 @@ def _canon(result) -> dict:
 
 def _exc(e: BaseException) -> dict:
     c = e.__cause__
+    from sharepoint2text.parsing.exceptions import ExtractionError
     return {"type": type(e).__name__, "msg": str(e)[:300], "cause": type(c).__name__ if c is not None else None,
-            "cause_msg": str(c)[:300] if c is not None else None}
+            "cause_msg": str(c)[:300] if c is not None else None, "family": isinstance(e, ExtractionError)}
 
 
 def _addr(a) -> list:
@@ -112,7 +147,7 @@ def _addrs(v) -> list:
 
 
 def _observe(r, truth_atts, blobs) -> dict:
-    from sharepoint2text.parsing.mime_types import is_supported_mime_type
+    from sharepoint2text.parsing.mime_types import MIME_TYPE_MAPPING, is_supported_mime_type
     from sharepoint2text.parsing.router import get_extractor
 
     o = {"subject": r.subject, "from": _addr(r.from_email), "to": _addrs(r.to_emails), "cc": _addrs(r.to_cc),
@@ -128,8 +163,10 @@ def _observe(r, truth_atts, blobs) -> dict:
                      "sha_eol": core.sha(data.replace(b"\r\n", b"\n")), "supported": a.is_supported_mime_type, "head": core.b64(data[:48])})
     o["atts"] = atts
     if truth_atts is not None:
+        o["sup"] = []
         try:
-            o["sup"] = [_canon(x) for x in r.iterate_supported_attachments()]
+            for x in r.iterate_supported_attachments():    # element by element: what came before an error is an observation, too
+                o["sup"].append(_canon(x))
         except Exception as e:  # noqa: BLE001 - observation, judged by the parent
             o["sup_error"] = _exc(e)
         direct = []
@@ -137,14 +174,14 @@ def _observe(r, truth_atts, blobs) -> dict:
             if not is_supported_mime_type(t["ctype"]):
                 direct.append({"skipped": "unsupported-mime"})
                 continue
-            key = (t["sha"], t["filename"].rsplit(".", 1)[-1].lower() if "." in t["filename"] else t["ext"])
+            key = (t["sha"], t["filename"].rsplit(".", 1)[-1].lower() if "." in t["filename"] else t["ctype"])
             if key not in _direct_cache:
                 try:
                     try:
-                        ex = get_extractor(t["filename"])
-                    except Exception:  # noqa: BLE001 - no usable extension: the file "on its own" is named by its type
-                        ex = get_extractor("attachment." + t["ext"])
-                    res = [_canon(x) for x in ex(io.BytesIO(core.unb64(blobs[t["sha"]])), t["filename"])]
+                        ex = get_extractor(t["filename"])      # README: extension first ...
+                    except Exception:  # noqa: BLE001 - ... no usable extension / no name: the file "on its own" is named by its declared type
+                        ex = get_extractor("attachment." + MIME_TYPE_MAPPING[t["ctype"]])
+                    res = [_canon(x) for x in ex(io.BytesIO(core.unb64(blobs[t["sha"]])), t["filename"] or None)]
                     _direct_cache[key] = {"results": res}
                 except Exception as e:  # noqa: BLE001
                     _direct_cache[key] = {"error": _exc(e)}
@@ -192,6 +229,13 @@ def _mboxrd_escaped(b: bytes) -> bytes:
     return b"\n".join((b">" + ln) if G._FROM_ESC.match(ln) else ln for ln in b.split(b"\n"))
 
 
+def _blank_after_colon(b: bytes) -> bytes:
+    """The known re-serialisation of an attached message by the .mbox reader: a header whose value starts on the
+    continuation line gets a blank after its colon."""
+    head, sep, body = b.partition(b"\r\n\r\n" if b"\r\n\r\n" in b else b"\n\n")
+    return re.sub(rb"(?m)^([!-9;-~]+):(\r?\n[ \t])", rb"\1: \2", head) + sep + body
+
+
 def _eol(b: bytes) -> bytes:
     return b.replace(b"\r\n", b"\n")
 
@@ -211,9 +255,11 @@ def truth_of(spec: dict) -> dict:
     atts = []
     for a in spec["atts"]:
         data = G.attachment_truth_bytes(a, pol)
-        atts.append({"filename": a["filename"], "ctype": a["ctype"], "data": data, "sha": core.sha(data), "inline": a["disp"] == "inline",
-                     "cte": a["cte"], "kind": a["kind"], "ext": {"png": "png", "bin": "bin"}.get(a["kind"], a["kind"])})
-    return {"subject": spec["subject"], "subject_accept": G.subject_readings(G.header_probe(spec)), "from": list(spec["from"]), "to": G.flat(spec["to"]), "cc": G.flat(spec["cc"]),
+        atts.append({"filename": a["filename"], "ctype": a["ctype"], "data": data, "sha": core.sha(data), "inline": a["disp"] != "attachment",
+                     "cte": a["cte"], "kind": a["kind"], "ext": {"png": "png", "bin": "bin"}.get(a["kind"], a["kind"]), "encrypted": a["kind"] == "enc"})
+    if "_subject_accept" not in spec:            # derived from the header block only; dropped whenever that is re-written (twin_of)
+        spec["_subject_accept"] = G.subject_readings(G.header_probe(spec))
+    return {"subject": spec["subject"], "subject_accept": spec["_subject_accept"], "from": list(spec["from"]), "to": G.flat(spec["to"]), "cc": G.flat(spec["cc"]),
             "bcc": G.flat(spec["bcc"]), "reply_to": G.flat(spec["reply_to"]), "instant": G.spec_instant(spec),
             "message_id": spec["message_id"], "plain": spec["plain"] or "", "html": spec["html"] or "", "atts": atts}
 
@@ -296,6 +342,8 @@ def compare_message(t: dict, o: dict, carrier: str) -> list[tuple[str, str, str]
     inline = [a for a in want_all if a["inline"]]
     want = [a for a in want_all if not a["inline"]]
 
+    escaped_atts = False                  # an attachment came back with the mailbox writer's '>' escapes: its extraction differs by them
+
     def same(g, w, strict_name=True):
         if g["mime"] != w["ctype"] or (strict_name and g["filename"] != w["filename"]):
             return False
@@ -303,7 +351,7 @@ def compare_message(t: dict, o: dict, carrier: str) -> list[tuple[str, str, str]
 
     for w in inline:                      # optional, but exact when present
         for g in got:
-            if g["filename"] == w["filename"] or g["sha"] == w["sha"]:
+            if (w["filename"] and g["filename"] == w["filename"]) or g["sha"] == w["sha"]:
                 got.remove(g)
                 if not same(g, w):
                     d.append(("inline-part", "differs", f"got {g['filename']!r} {g['mime']} {g['len']}B want {w['filename']!r} {w['ctype']} {len(w['data'])}B"))
@@ -313,7 +361,12 @@ def compare_message(t: dict, o: dict, carrier: str) -> list[tuple[str, str, str]
         d.append(("attachment", sym, f"got {[(g['filename'], g['mime'], g['len']) for g in got]!r} want {[(w['filename'], w['ctype'], len(w['data'])) for w in want]!r}"))
     else:
         for g, w in zip(got, want):
-            if g["filename"] != w["filename"]:
+            if not w["filename"]:
+                # a part without filename / name parameter has no name to be exact about: "" / None / the readers' constant
+                # placeholder "attachment" (no extension, so the declared type decides the extractor) - anything else is invented
+                if g["filename"] and g["filename"] != "attachment":
+                    d.append(("attachment", "filename-invented", f"nameless {w['ctype']} part: got {g['filename']!r}"))
+            elif g["filename"] != w["filename"]:
                 d.append(("attachment", "filename-differs", f"got {g['filename']!r} want {w['filename']!r}"))
             if g["mime"] != w["ctype"]:
                 d.append(("attachment", "type-differs", f"{w['filename']}: got {g['mime']!r} want {w['ctype']!r}"))
@@ -323,30 +376,42 @@ def compare_message(t: dict, o: dict, carrier: str) -> list[tuple[str, str, str]
                 if textual and g["sha_eol"] == core.sha(_eol(w["data"])):
                     pass                  # line terminator of a 7bit/8bit text part is transport
                 elif carrier == "mbox" and w["cte"] in ("7bit", "8bit", "quoted-printable") and g["sha_eol"] == core.sha(_eol(_mboxrd_escaped(w["data"]))):
-                    pass                  # as for bodies: the '>' the harness's own mboxrd writer put before From lines may be kept (documented)
+                    escaped_atts = True   # as for bodies: the '>' the harness's own mboxrd writer put before From lines may be kept (documented)
+                elif carrier == "mbox" and w["kind"] == "eml" and g["sha_eol"] != core.sha(_eol(_blank_after_colon(w["data"]))):
+                    # not the one known re-serialisation ("Name:" CRLF SP value -> "Name: " CRLF SP value): other bytes than the attached message's
+                    d.append(("attachment-eml", "bytes-foreign", f"{w['filename']}: got {g['len']}B head={gb[:32]!r} want {len(w['data'])}B head={w['data'][:32]!r}"))
                 else:
                     d.append((f"attachment-{w['kind']}", "bytes-differ", f"{w['filename']} cte={w['cte']}: got {g['len']}B head={gb[:32]!r} want {len(w['data'])}B head={w['data'][:32]!r}"))
             if g.get("pos") not in (0, None):
                 d.append(("attachment", "stream-not-at-start", f"{w['filename']}: data.tell()={g['pos']}"))
     # supported attachments == direct extraction (only meaningful where the attachments were returned)
     if "direct" in o and len(got) == len(want) and not any(x[0].startswith("attachment") for x in d):
-        exp = []
+        exp, stop = [], None
         for w, dr in zip(want_all, o["direct"]):
-            if w["inline"] and not any(g["filename"] == w["filename"] for g in o["atts"]):
+            if w["inline"] and not any((w["filename"] and g["filename"] == w["filename"]) or g["sha"] == w["sha"] for g in o["atts"]):
                 continue
+            if dr.get("error", {}).get("type") == "ExtractionFileEncryptedError":
+                stop = w                  # the file on its own is refused as encrypted: the iterator says so, too (it re-raises that error)
+                break
             textual = w["cte"] in ("7bit", "8bit") and w["kind"] in ("txt", "eml")
             for x in dr.get("results", []):
                 exp.append(dict(x, textual=textual))
-        if "sup_error" in o:
-            d.append(("supported-attachments", "raised", repr(o["sup_error"])))
-        else:
+        err = o.get("sup_error")
+        if err and not err.get("family"):
+            d.append(("supported-attachments", "raised-outside-error-family", repr(err)))
+        elif err and not (stop is not None and err["type"] == "ExtractionFileEncryptedError"):
+            d.append(("supported-attachments", "raised", repr(err)))
+        elif stop is not None and not err:
+            d.append(("supported-attachments", "encrypted-attachment-not-reported", f"{stop['filename']} ({stop['ctype']}): extracting the file on its own raises ExtractionFileEncryptedError, "
+                      f"the iterator ended normally after {len(o['sup'])} results"))
+        if not err or (stop is not None and err.get("type") == "ExtractionFileEncryptedError"):
             def ident(x, textual):
                 return (x["cls"], x["text_sha_eol"]) if textual else (x["cls"], x["digest"], x["meta_digest"])
 
             tx = [e["textual"] for e in exp] + [False] * len(o["sup"])
             gs = [ident(x, tx[i]) for i, x in enumerate(o["sup"])]
             es = [ident(x, x["textual"]) for x in exp]
-            if gs != es:
+            if gs != es and not (escaped_atts and [x[0] for x in gs] == [x[0] for x in es]):
                 if [x[0] for x in gs] == [x[0] for x in es]:
                     sym = "content-differs-from-direct-extraction"
                 elif len(gs) < len(es):
@@ -386,14 +451,24 @@ def load_fixtures() -> dict:
     pick = {"docx": ["modern_ms/headings.docx"],
             "pdf": ["pdf/wirecard-annual-report-2018-page190.pdf", "pdf/large_table_1.pdf"],
             "xlsx": ["modern_ms/mwe.xlsx", "modern_ms/Country_Codes_and_Names.xlsx", "modern_ms/empty_row_columns.xlsx"]}
-    return {k: [(n, (root / n).read_bytes()) for n in v] for k, v in pick.items()}
+    fx = {k: [(n, (root / n).read_bytes()) for n in v] for k, v in pick.items()}
+    # password-protected documents (refused as encrypted when read on their own): (fixture, bytes, declared type, extension)
+    enc = {"legacy_ms/password_protected/docx-password-protected-pw123.docx": "application/vnd.openxmlformats-officedocument.wordprocessingml.document",
+           "legacy_ms/password_protected/xslx-password-protected-pw123.xlsx": "application/vnd.openxmlformats-officedocument.spreadsheetml.sheet",
+           "legacy_ms/password_protected/pptx-password-protected-pw123.pptx": "application/vnd.openxmlformats-officedocument.presentationml.presentation",
+           "legacy_ms/password_protected/pdf-password-protected-pw123.pdf": "application/pdf",
+           "open_office/password_protected/odt-password-protected-pw123.odt": "application/vnd.oasis.opendocument.text",
+           "open_office/password_protected/ods-password-protected-pw123.ods": "application/vnd.oasis.opendocument.spreadsheet"}
+    fx["enc"] = [(n, (root / n).read_bytes(), ct, n.rsplit(".", 1)[-1]) for n, ct in enc.items() if (root / n).exists()]
+    return fx
 
 
 def build_case(rng, tok, fx, n_msgs: int, risky: str | None, cid: int, stats=None) -> dict:
     """One mailbox of ``n_msgs`` messages.  Carries: every message as .eml, the mailbox, and the twins."""
     allow = {"max_atts": 4}
     specs = []
-    for i in range(n_msgs):
+
+    def fresh(allow):
         for attempt in range(6):
             s = G.random_spec(rng, tok, fx, allow=allow)
             if s["hdr"]["mode"] == "stdlib":
@@ -402,28 +477,57 @@ def build_case(rng, tok, fx, n_msgs: int, risky: str | None, cid: int, stats=Non
                     G.to_hand_mode(s)
                     if stats is not None:
                         stats["stdlib_writer_faults_avoided"] = stats.get("stdlib_writer_faults_avoided", 0) + 1
-            if s["hdr"]["mode"] == "stdlib" and {"fold-at-encoded-word", "fold-in-white-space-run"} & set(G.wire_features(s)):
+            probe = G.header_probe(s)
+            wf = set(G.wire_features(s, probe))
+            if s["hdr"]["mode"] == "stdlib" and AMBIGUOUS_FOLDS & wf:
                 G.to_hand_mode(s)                        # the stdlib writer chose a risky / ambiguous fold: the hand writer never does
+                probe = G.header_probe(s)
+                wf = set(G.wire_features(s, probe))
                 if stats is not None:
                     stats["stdlib_folds_at_encoded_word_avoided"] = stats.get("stdlib_folds_at_encoded_word_avoided", 0) + 1
-            if s["subject"] in G.subject_readings(G.header_probe(s)) and not {"fold-at-encoded-word", "fold-in-white-space-run"} & set(G.wire_features(s)):
+            s["_wire_features"] = sorted(wf)
+            if s["subject"] in G.subject_readings(probe) and not AMBIGUOUS_FOLDS & wf:
                 break                                    # the wire says what the model says (always, for the hand writer: G.self_test)
             if stats is not None:
                 stats["hand_writer_subject_faults"] = stats.get("hand_writer_subject_faults", 0) + 1
-        specs.append(s)
+        return s
+
+    for i in range(n_msgs):
+        specs.append(fresh(allow))
     if risky and specs:
-        s = rng.choice(specs)
+        at = rng.randrange(len(specs))
+        variant = NESTED_VARIANTS[cid % len(NESTED_VARIANTS)] if risky == "nested-rfc822" else None
+        if variant and variant["carrier"]:
+            # the carrier's own body shape matters: a carrier without text/plain is where a reader that walks into the
+            # carried message finds "the first text/plain part"
+            specs[at] = fresh(dict(allow, shapes=[variant["carrier"]], encrypted=False))
+        s = specs[at]
         s["risky"] = risky
         if risky == "nested-rfc822":
-            s["atts"].insert(rng.randrange(len(s["atts"]) + 1), G.nested_eml_attachment(rng, tok, fx, s["hdr"]["policy"]))
-            s["features"] = sorted(set(s["features"]) | {"att:eml:8bit", "risky:nested-rfc822"} | {f for a in s["atts"] if a["kind"] == "eml" for f in a["inner"]["features"] if ":" in f})
+            # 1..3 carried messages of different sizes: forwarded as attachment (with or without a file name) or inline
+            sizes = rng.sample([0, 1, 3, 6, 10, 16, 24], len(variant["disp"]))
+            if variant["order"] == "decreasing":
+                sizes.sort(reverse=True)               # a later, shorter message after a longer one
+            nested = [G.nested_eml_attachment(rng, tok, fx, s["hdr"]["policy"], disp=dsp, nameless=rng.random() < 0.5, lines=n) for dsp, n in zip(variant["disp"], sizes)]
+            others = [a for a in s["atts"] if a["disp"] != "inline"][:max(0, 4 - len(nested))]
+            s["atts"] = [a for a in s["atts"] if a["disp"] == "inline"] + others
+            pos = rng.randrange(len(others) + 1)
+            first = len(s["atts"]) - len(others) + pos
+            s["atts"][first:first] = nested              # kept together and in this order
+            s["features"] = sorted(set(f for f in s["features"] if not f.startswith("att:n=")) | {"att:eml:8bit", "risky:nested-rfc822", f"nested:n={len(nested)}:{variant['order']}", f"att:n={len(others) + len(nested)}", "nested:carrier-" + str(variant["carrier"])}
+                                   | {"nested:disp-" + d for d in variant["disp"]} | {"nested:nameless" for a in nested if a["disp"] == "attachment" and not a["filename"]}
+                                   | {f for a in nested for f in a["inner"]["features"] if ":" in f})
         elif risky == "fold-at-encoded-word":
             G.force_fold_at_encoded_word(rng, tok, s)
         elif risky == "date-second-60":
             G.force_second_60(s)
     for s in specs:
         # features that only the rendered bytes show (the stdlib writer folds where it likes)
-        s["auto_risky"] = [f for f in G.wire_features(s) if f in RISKY and f != "fold-at-encoded-word"]   # that one is planned, never incidental
+        wf = s.pop("_wire_features") if not s.get("risky") else G.wire_features(s)      # a planned risky form re-writes the header block
+        s.pop("_wire_features", None)
+        s["auto_risky"] = [f for f in wf if f in RISKY and f != "fold-at-encoded-word"]   # that one is planned, never incidental
+        if any(a["disp"] == "attachment" and not a["filename"] for a in s["atts"]):
+            s["auto_risky"].append("nameless-attachment")
         s["features"] = sorted(set(s["features"]) | {"risky:" + f for f in s["auto_risky"]})
     eol = rng.choice([b"\n", b"\n", b"\r\n"])
     mb = {"eol": "CRLF" if eol == b"\r\n" else "LF", "blank_lines": rng.choice([1, 1, 1, 2]), "final_blank": rng.random() < 0.8}
@@ -444,19 +548,26 @@ def materialise(case: dict) -> dict:
     mbo = case["mbox_opts"]
     eol = b"\r\n" if mbo["eol"] == "CRLF" else b"\n"
     blobs, items, index = {}, [], []
-    raws = []
+    raws, per_message = [], []
     for i, s in enumerate(specs):
         raw = G.render_message(s)
         raws.append(raw)
         t = truth_of(s)
         for a in t["atts"]:
             blobs[a["sha"]] = core.b64(a["data"])
-        items.append({"kind": "eml", "b64": core.b64(raw), "path": f"c16-{case['cid']}-{i}.eml",
-                      "truth_atts": [[{"filename": a["filename"], "ctype": a["ctype"], "sha": a["sha"], "ext": a["ext"]} for a in t["atts"]]]})
+        per_message.append([{"filename": a["filename"], "ctype": a["ctype"], "sha": a["sha"], "ext": a["ext"]} for a in t["atts"]])
+        items.append({"kind": "eml", "b64": core.b64(raw), "path": f"c16-{case['cid']}-{i}.eml", "truth_atts": [per_message[-1]]})
         index.append(("eml", i, None))
     env = envelopes(case["cid"], specs)
     mbox, escaped = G.write_mbox(raws, env, eol, mbo["blank_lines"], mbo["final_blank"])
-    items.append({"kind": "mbox", "b64": core.b64(mbox), "path": f"c16-{case['cid']}.mbox"})
+    # the mailbox's messages go through iterate_supported_attachments() as well (the shared dataclass, the other reader's
+    # names): every message whose attachments are nameless / typed otherwise than named / encrypted / messages, and a
+    # sixth of the others (extracting every PDF and workbook a second time would double the tier's cost)
+    def through_iterator(i, s):
+        special = any(not a["filename"] or a.get("mismatch") or a["kind"] in ("enc", "eml") for a in s["atts"] if a["disp"] != "inline")
+        return special or (case["cid"] + i) % 6 == 0
+    items.append({"kind": "mbox", "b64": core.b64(mbox), "path": f"c16-{case['cid']}.mbox",
+                  "truth_atts": [pm if through_iterator(i, s) else None for i, (pm, s) in enumerate(zip(per_message, specs))]})
     index.append(("mbox", None, None))
     # control twins: the same messages with the risky feature replaced by its benign form
     twins = [twin_of(s) for s in specs]
@@ -487,7 +598,7 @@ def twin_of(spec: dict):
         t = copy.deepcopy(spec)
         t["atts"] = [a for a in t["atts"] if a["kind"] != "eml"]
         t.pop("risky")
-        t["features"] = sorted(f for f in t["features"] if f not in ("att:eml:8bit", "risky:nested-rfc822") and not f.startswith("inner:"))
+        t["features"] = sorted(f for f in t["features"] if f not in ("att:eml:8bit", "risky:nested-rfc822") and not f.startswith(("inner:", "nested:")))
     elif spec.get("risky") == "fold-at-encoded-word":
         t = copy.deepcopy(spec)
         t["hdr"]["fold_at_ew"] = False
@@ -501,10 +612,15 @@ def twin_of(spec: dict):
     if spec.get("auto_risky"):
         t = t or copy.deepcopy(spec)
         G.benign_wire_form(t)                       # Subject and Message-ID on one line each
+        for i, a in enumerate(t["atts"]):
+            if a["disp"] == "attachment" and not a["filename"]:
+                a["filename"] = f"named-{i}." + {"enc": "bin"}.get(a["kind"], a["kind"])     # the same part with a file name
         t["features"] = sorted(f for f in t["features"] if f[6:] not in spec["auto_risky"] or not f.startswith("risky:"))
         t["auto_risky"] = []
     if t is None and spec["atts"]:
         t = copy.deepcopy(spec)
+    if t is not None:
+        t.pop("_subject_accept", None)
     return t
 
 
@@ -518,6 +634,7 @@ KNOWN_SYMPTOMS = {
     "date-second-60": {("mbox", "extraction", "raised-ValueError")},
     "plain-folded-subject": {("eml", "subject", "fold-line-break-kept")},
     "message-id-on-continuation-line": {("mbox", "message-id", "outer-white-space-kept")},
+    "nameless-attachment": {("eml", "attachment", "filename-invented")},
 }
 
 
@@ -585,8 +702,16 @@ def main(run, only_cases=None):
     run.require("carrier_cross_comparisons", c.get("carrier_cross_comparisons", 0), run.n(500, 8000))
     run.require("subjects_with_interior_white_space_compared", c.get("subjects_with_interior_white_space_compared", 0), run.n(150, 2500))
     run.require("subject_white_space_kinds_seen", len([k for k in c if k.startswith("subject_ws_")]), len(G.SUBJECT_WS))
-    run.require("subjects_with_tab_fold_compared", c.get("subjects_with_tab_fold_compared", 0), run.n(10, 150))
+    run.require("subjects_with_tab_fold_compared", c.get("subjects_with_tab_fold_compared", 0), run.n(5, 100))
+    run.require("mbox_supported_attachment_extractions_compared", c.get("mbox_supported_attachment_extractions_compared", 0), run.n(200, 3000))
+    run.require("nested_message_variants_seen", len([k for k in c if k.startswith("nested_variant_")]), len(NESTED_VARIANTS))
+    run.require("attachments_with_other_type_than_their_name_says", c.get("attachments_with_other_type_than_their_name_says", 0), run.n(100, 1500))
+    run.require("type_name_mismatch_kinds_seen", len([k for k in c if k.startswith("mismatch_")]), len(G.MISMATCHED))
+    run.require("messages_with_encrypted_attachment", c.get("messages_with_encrypted_attachment", 0), run.n(20, 300))
+    run.require("messages_with_nameless_attachment", c.get("messages_with_nameless_attachment", 0), run.n(30, 500))
     run.require("display_names_with_interior_white_space", c.get("display_names_with_interior_white_space", 0), run.n(100, 1500))
+    if c.get("hand_writer_subject_faults"):
+        run.inconclusive(f"{c['hand_writer_subject_faults']} generated Subject headers did not read back as the model says (writer fault, not a reader's)")
     if run.inconclusive_cases > 0.02 * max(1, len(cases)):
         run.inconclusive(f"{run.inconclusive_cases} of {len(cases)} cases inconclusive")
 
@@ -644,6 +769,7 @@ def judge_case(run, case, m, obs):
                     for comp, sym, det in compare_message(truths[i], r, "mbox"):
                         diffs.append(("mbox", i, comp, sym, det))
                     run.count("mbox_messages_compared")
+                    run.count("mbox_supported_attachment_extractions_compared", len(r.get("sup", [])))
         elif kind == "mbox-twin":
             tspecs = extra
             bad = []
@@ -739,7 +865,16 @@ def _count_message(run, spec, truth, r):
         run.count("subjects_with_interior_white_space_compared")
     if len(truth["subject_accept"]) > 1:
         run.count("subjects_with_tab_fold_compared")
+    if spec.get("risky") == "nested-rfc822":
+        run.count("nested_variant_" + "|".join(f for f in spec["features"] if f.startswith("nested:") and "nameless" not in f))
     for f in spec["features"]:
+        if f.startswith("att:mismatch:"):
+            run.count("attachments_with_other_type_than_their_name_says")
+            run.count("mismatch_" + f[13:])
+        elif f.startswith("att:encrypted:"):
+            run.count("messages_with_encrypted_attachment")
+        elif f == "att:nameless" or f == "nested:nameless":
+            run.count("messages_with_nameless_attachment")
         if f.startswith("subj:ws:"):
             run.count("subject_ws_" + f[8:])
         elif f.startswith("name:ws-quoted") or f.startswith("name:nonascii-ws"):
